@@ -43,12 +43,18 @@ type digest struct {
 	Parts []string // "name=sha256"
 	// SimMismatch: a transaction whose simulation (SDK simulate mode, same committed state) and delivery disagree
 	SimMismatch string
+	// Gas: gas used per transaction tag (this replay)
+	Gas map[string]int64
 }
 
 func h(b []byte) string { s := sha256.Sum256(b); return hex.EncodeToString(s[:12]) }
 
 // replayDigest runs the recorded blocks on a fresh chain instance.
-func replayDigest(c *c18case) (d digest, err error) {
+func replayDigest(c *c18case) (d digest, err error) { return replayDigestGas(c, nil, 0) }
+
+// replayDigestGas: as replayDigest; with gas != nil every transaction runs under a gas limit of the gas it used
+// in that earlier replay plus slack (it needs no more, so nothing may change).
+func replayDigestGas(c *c18case, gas map[string]int64, slack uint64) (d digest, err error) {
 	defer func() {
 		if r := recover(); r != nil {
 			err = fmt.Errorf("replay panicked: %v", r)
@@ -71,9 +77,14 @@ func replayDigest(c *c18case) (d digest, err error) {
 		for tag, ords := range b.Faults {
 			ch.Ledger.SetFaults(tag, ords)
 		}
+		for _, raw := range raws {
+			if g, ok := gas[chain.TagOf(raw)]; ok && g >= 0 {
+				ch.SetGasLimit(chain.TagOf(raw), uint64(g)+slack)
+			}
+		}
 		// the first transaction of the block also in simulation mode, on the very state it is delivered on
 		simOK, simLog, simmed := false, "", false
-		if len(raws) > 0 && len(b.Faults[chain.TagOf(raws[0])]) == 0 {
+		if gas == nil && len(raws) > 0 && len(b.Faults[chain.TagOf(raws[0])]) == 0 {
 			simOK, simLog = ch.Simulate(raws[0])
 			simmed = true
 		}
@@ -83,6 +94,10 @@ func replayDigest(c *c18case) (d digest, err error) {
 		}
 		d.Parts = append(d.Parts, fmt.Sprintf("block%d.apphash=%x", bi, ch.LastHash))
 		for ti, r := range res {
+			if d.Gas == nil {
+				d.Gas = map[string]int64{}
+			}
+			d.Gas[chain.TagOf(raws[ti])] = r.GasUsed
 			lg := r.Log
 			if r.Panicked() {
 				lg = "<panic>" // stack traces carry goroutine ids and addresses
@@ -292,6 +307,17 @@ func c18check(c *c18case, unrelated *c18case, concurrent int) *Viol {
 			if d := firstDiff(ref, after); d != "" {
 				return viol("C18", 0, "replay after an unrelated history in the same process differs", "byte-identical", d)
 			}
+		}
+	}
+	// metamorphic: every transaction under a gas limit of exactly what it used (and a little more): it needs no more,
+	// so nothing may change (a result that looks at the gas left, or at the limit, would)
+	for _, slack := range []uint64{0, 20000} {
+		gd, err := replayDigestGas(c, ref.Gas, slack)
+		if err != nil {
+			return viol("C18", 0, "replay under per-transaction gas limits failed", "completes", err)
+		}
+		if d := firstDiff(ref, gd); d != "" {
+			return viol("C18", 0, fmt.Sprintf("the same history with every transaction's gas limit set to the gas it used + %d gives other results", slack), "byte-identical", d)
 		}
 	}
 	// metamorphic: dropping the transactions that failed must change nothing (anything a rolled-back
